@@ -98,11 +98,17 @@ def bindsAt (l : Loop) : Nat → List (S × Id)
   | 0 => l.bindings
   | k + 1 => l.loopBindings.map (fun kv => (kv.1, (l.stage + kv.2.1, iterName k kv.2.2))) ++ l.bindings
 
-/-- `rewrite_all_references` on one reference of a template component for iteration `k` -/
+/-- `rewrite_reference`: the value of the input binding the reference names, or the reference projected to the
+stage of the importing component -/
+def target (binds : List (S × Id)) (l : Loop) (r : Id) : Id :=
+  match lookup r.2 binds with
+  | some i => i
+  | none => offset l r
+
+/-- `rewrite_all_references` on one reference of a template component for iteration `k`: a reference to a looped
+component becomes a reference to its instance of this iteration -/
 def rewriteRef (l : Loop) (k : Nat) (r : Id) : Id :=
-  let t := match lookup r.2 (bindsAt l k) with
-    | some i => i
-    | none => offset l r
+  let t := target (bindsAt l k) l r
   if (tmplIds l).contains t then (t.1, iterName k t.2) else t
 
 /-- `rewrite_components`: the components of iteration `k` -/
